@@ -9,9 +9,9 @@ PROPS = {
     'C02': {
         'e3_always': ['opt_levels'],
         'e3': ['compose_paths', 'path_optimizer', 'opt_levels'],
-        'units': ['paths'],
-        'decided': 'path composition used by the cl23 optimiser and NodePath (compose_paths) equals "follow p then q" for all paths >= 1',
-        'not_covered': ['CSE, de-inlining, constant folding, fe_opt, strategy optimiser: bounded stand-in only (E3: 9 programs x argument sets x cl21/cl22/cl23 x -O off/on must agree on the returned value)', 'brief_path_selection_single call-site precondition', 'whole-pipeline equality of builds for all programs'],
+        'units': ['paths', 'nullopt'],
+        'decided': 'path composition used by the cl23 optimiser and NodePath (compose_paths) equals "follow p then q" for all paths >= 1; the cl23+ post-codegen passes: null_optimization keeps the value of well-formed generated code in every environment (as an expression / as an operand list, by induction over the code against a compositional evaluation spec with uninterpreted operators), null_optimization_of_code and Strategy23::post_codegen_function_optimize / post_codegen_output_optimize return code with the same value (given assumed contracts for remove_double_apply and brief_path_selection); SExp::atomize',
+        'not_covered': ['remove_double_apply and brief_path_selection (contracts ASSUMED in unit nullopt)', 'that codegen only emits well-formed code (atom operators; precondition at the unverified call site)', 'CSE, de-inlining, constant folding, fe_opt, strategy optimiser: bounded stand-in only (E3: 15 programs x argument sets x cl21/cl22/cl23 x -O off/on must agree on the returned value)', 'brief_path_selection_single call-site precondition', 'whole-pipeline equality of builds for all programs'],
     },
     'C03': {
         'e3_always': ['classic_meaning'],
@@ -97,14 +97,15 @@ PROPS = {
         'not_covered': ['quoted-string escape/un-escape agreement: bounded stand-in only (E3 round trip on all 1-byte, 2304 2-byte and special 3-byte atoms, 3 positions, 3 versions); the Kani per-atom harness did not finish (HashMap + String in CBMC, 20 min) and was dropped', 'decimal and hex text conversion (assumed inverse pairs)', 'list / dot layout', 'modern printer and reader: bounded stand-in only', 'CLI path'],
     },
     'C14': {
-        'units': ['safety', 'srcloc', 'ser', 'printer', 'depwalk'],
-        'e3_always': ['no_panic', 'include_files'],
-        'e3': ['no_panic', 'include_files'],
-        'decided': 'absence of panics, arithmetic overflow, out-of-bounds indexing and non-termination (under the stated preconditions) in the front-end leaves under contract: Stream::read / set_seek / get_seek, IRReader::backup, Bytes accessors and concat, atom_from_stream, atom_size_blob, int_from_bytes, get_u32, Srcloc arithmetic incl. len, is_hex / is_space / is_eol, has_oversized_sign_extension, ir_for_atom; Preprocessor::process_include / recurse_dependencies index no parsed form that is not there (empty include file: finding F14, fixed)',
+        'units': ['safety', 'srcloc', 'ser', 'printer', 'depwalk', 'macroext'],
+        'e3_always': ['no_panic', 'include_files', 'macro_ext', 'token_mutations'],
+        'e3': ['no_panic', 'include_files', 'macro_ext', 'token_mutations'],
+        'decided': 'absence of panics, arithmetic overflow, out-of-bounds indexing and non-termination (under the stated preconditions) in the front-end leaves under contract: Stream::read / set_seek / get_seek, IRReader::backup, Bytes accessors and concat, atom_from_stream, atom_size_blob, int_from_bytes, get_u32, Srcloc arithmetic incl. len, is_hex / is_space / is_eol, has_oversized_sign_extension, ir_for_atom; Preprocessor::process_include / recurse_dependencies index no parsed form that is not there (empty include file: finding F14, fixed); the defmac extension functions (string? number? symbol? string->symbol symbol->string string-append string-length substring) fetch every argument through required_arg (Ok exactly when the call supplies it) and substring only slices inside the string (finding F17, fixed)',
         'not_covered': ['the readers as wholes (parse_sexp, read_ir, sexp_from_stream): bounded stand-in only (E3 no-panic sweep, bound stated in evidence)', 'compile, run, debug, REPL, dependency listing as wholes', 'termination of the include walk: recurse_dependencies <-> process_pp_form carry no decreases clause; include cycles overflow the stack (open finding F15, reproduced each run by the include_files stand-in in a child process)', 'located-error clause beyond C15', 'preconditions at unverified call sites (e.g. Stream length >= 1 at IRReader::backup) are assumptions'],
     },
     'C19': {
         'units': ['atomicwrite'],
+        'e3': ['atomic_write'],
         'decided': 'the mechanism only: atomic_write_file creates its temporary file in the directory of the target, writes exactly the new contents to it, and the target is only ever replaced by persisting that file (a rename within one directory); no other file-writing call occurs in atomic_write_file / gentle_overwrite; gentle_overwrite succeeds whenever old and new contents are equal up to surrounding whitespace, whatever the rewrite attempt returns',
         'not_covered': ['atomicity of rename(2) (ASSUMED)', 'the whole "at every instant / killed at any point / concurrent readers" quantifier: no verifier here models crash points or concurrent observers', 'callers in clvmc.rs / py api'],
         'assumptions': ['POSIX: rename(2) within one directory replaces the target atomically', 'tempfile::NamedTempFile::persist is rename(2) when source and target are on the same file system'],
